@@ -440,3 +440,284 @@ def end_scripts(rng, quick=True, seed=0):
         for _ in range(60):
             cases.append(make_end_script(rng, rng.choice([10, 11])))
     return cases
+
+
+# ---------------------------------------------------------------- scenario l: who receives what AFTER the hello - listeners that were removed
+"""Scenario l ("whatever bytes a server sends AFTER THE HELLO ... every message delivered to listeners ... none invented").
+The session is established by a REAL `UnixSocketSession.connect(path)` against a listening Unix socket: the scripted server accepts,
+sends its <hello> (session-id, capabilities; base:1.1 or not), the capability exchange runs (`_post_connect`, HelloHandler).  Then a
+history of steps, strictly one after the other:
+  hello2 v   the server sends ANOTHER <hello> in the negotiated framing - other session-id, other capabilities (v: more / fewer / none /
+             no session-id) - to an established session (hostile input after the hello)
+  add k / remove k   the application registers / unregisters its listener k (`Session.add_listener` / `remove_listener`)
+  msg n      the server sends a well-formed message <m n="..."/>
+  frame hex  the server sends a correctly framed payload that is not XML (default profile: dropped)
+  req sync   the application makes a request (the FIRST one registers the reply listener), the server sends its valid reply
+and finally a sentinel (a fresh listener is added, one more message is sent and awaited: everything before it was dispatched), after
+which the session may be ended by the peer (eof).
+Oracle (property text only): the identity of the session - `session.id`, `session.server_capabilities`, the framing base - is what the
+hello of the capability exchange said, whatever arrives later; listener k received EXACTLY the well-formed messages the server sent
+while k was registered, in order, nothing before `add`, nothing after `remove` (a removed listener is not a listener: a message handed
+to it is delivered to nobody the application knows about); a payload that is not XML reaches no listener; every request holds its own
+reply (profiles whose reply listener takes every message as a reply - `perform_qualify_check()` False - make no request here); the session stays connected; at the end every registered listener gets the error exactly once, a removed one nothing."""
+import os as _os, tempfile as _tempfile, shutil as _shutil
+
+L_CAPS1 = ['urn:ietf:params:netconf:base:1.0', 'urn:ietf:params:netconf:capability:candidate:1.0', 'urn:ietf:params:netconf:capability:validate:1.1']
+L_HELLO2 = ['more_caps', 'fewer_caps', 'no_caps', 'no_session_id', 'same_caps_other_id']
+
+
+def hello_text(sid, caps):
+    return '<hello xmlns="%s"><capabilities>%s</capabilities>%s</hello>' % (
+        F.NS, ''.join('<capability>%s</capability>' % c for c in caps), '<session-id>%s</session-id>' % sid if sid is not None else '')
+
+
+def hello2_text(v, base):
+    b11 = ['urn:ietf:params:netconf:base:1.1']
+    if v == 'more_caps':
+        return hello_text('999', L_CAPS1 + b11 + ['urn:ietf:params:netconf:capability:writable-running:1.0', 'urn:ietf:params:netconf:capability:startup:1.0'])
+    if v == 'fewer_caps':
+        return hello_text('31337', ['urn:ietf:params:netconf:base:1.0'] if base == 11 else ['urn:ietf:params:netconf:base:1.0'] + b11)
+    if v == 'no_caps':
+        return hello_text('4', [])
+    if v == 'no_session_id':
+        return hello_text(None, ['urn:ietf:params:netconf:base:1.0', 'urn:evil:cap'])
+    return hello_text('2', L_CAPS1 + (b11 if base == 11 else []))
+
+
+def make_listener_script(rng, base, profile='default', fixed=None):
+    """fixed = a hello2 variant: the plain history connect -> second hello -> request; otherwise a random add / remove history"""
+    if fixed is not None:
+        steps = [['hello2', fixed]]
+        if rng.random() < 0.5: steps.append(['hello2', rng.choice(L_HELLO2)])
+        steps += [['req', rng.random() < 0.5], ['hello2', fixed], ['req', False]]
+        if rng.random() < 0.5: steps.insert(0, ['msg', 0])
+    else:
+        steps, reg, known, n = [], [], 0, 0
+        for _ in range(rng.randint(5, 11)):
+            r = rng.random()
+            if r < 0.22 and known < 4:
+                steps.append(['add', known]); reg.append(known); known += 1
+            elif r < 0.42 and reg:
+                k = rng.choice(reg); reg.remove(k); steps.append(['remove', k])
+            elif r < 0.50 and known:
+                k = rng.randrange(known)                       # re-add a removed one / add twice / remove twice: set semantics
+                if rng.random() < 0.5:
+                    steps.append(['add', k]); reg.append(k) if k not in reg else None
+                else:
+                    steps.append(['remove', k]); reg.remove(k) if k in reg else None
+            elif r < 0.62:
+                steps.append(['hello2', rng.choice(L_HELLO2)])
+            elif r < 0.72:
+                steps.append(['req', rng.random() < 0.4])
+            elif r < 0.78 and profile == 'default':
+                steps.append(['frame', rng.choice([b'not xml', b'&', b'{}', b'</x>']).hex()])
+            else:
+                n += 1; steps.append(['msg', n])
+        if not any(s[0] == 'remove' for s in steps):
+            steps = [['add', 0], ['msg', 90], ['remove', 0], ['msg', 91]] + [s for s in steps if s[0] not in ('add', 'remove')]
+    return {'level': 'session', 'scenario': 'l', 'base': base, 'profile': profile, 'steps': steps, 'sid': str(rng.randint(5, 60)),
+            'end': rng.choice([None, 'eof']), 'settle': rng.random() < 0.5}
+
+
+def listener_scripts(rng, quick=True, seed=0):
+    cases = []
+    profs = ['default', 'junos', 'default', 'iosxe', 'huawei', 'default', 'nexus', 'sros']
+    j = seed
+    for v in L_HELLO2:
+        for base in ((10, 11) if not quick or v in ('more_caps', 'fewer_caps') else ((10,) if (j % 2) else (11,))):
+            cases.append(make_listener_script(rng, base, profs[j % len(profs)], fixed=v)); j += 1
+    for i in range(10 if quick else 80):
+        cases.append(make_listener_script(rng, 10 if (i + seed) % 2 else 11, profs[(i + j) % len(profs)]))
+    return cases
+
+
+def run_listener_script(case, bound=3.0):
+    """-> (ok, what, sig, observation)"""
+    from ncclient.manager import make_device_handler
+    from ncclient.transport.unixSocket import UnixSocketSession
+    from ncclient.transport.session import SessionListener, NetconfBase
+    from ncclient.operations.rpc import RPC
+    from ncclient.xml_ import new_ele
+    class Get(RPC):
+        def request(self):
+            return self._request(new_ele('get'))
+    class Rec(SessionListener):
+        def __init__(self): self.got = []; self.errs = []
+        def callback(self, root, raw): self.got.append(raw)
+        def errback(self, ex): self.errs.append(type(ex).__name__)
+    base = case['base']
+    caps1 = L_CAPS1 + (['urn:ietf:params:netconf:base:1.1'] if base == 11 else [])
+    d = _tempfile.mkdtemp(prefix='c14l')
+    path = _os.path.join(d, 's')
+    srv = _socket.socket(_socket.AF_UNIX, _socket.SOCK_STREAM)
+    srv.bind(path); srv.listen(1)
+    conn = {}
+    def server():
+        try:
+            srv.settimeout(5)
+            c, _ = srv.accept(); conn['c'] = c
+            c.sendall(hello_text(case['sid'], caps1).encode('utf-8') + F.DELIM10)
+        except Exception as e:
+            conn['err'] = repr(e)
+    th = threading.Thread(target=server, daemon=True); th.start()
+    dh = make_device_handler({'name': case['profile']})
+    s = UnixSocketSession(dh)
+    obs = {}
+    def wait(pred, b=bound):
+        t = time.time() + b
+        while time.time() < t:
+            if pred(): return True
+            time.sleep(0.001)
+        return pred()
+    try:
+        try:
+            s.connect(path=path, timeout=5)
+        except Exception as e:
+            return False, 'connect() to a server that sent a valid <hello> raised %s: %s' % (type(e).__name__, e), 'connect_failed', {'server': conn.get('err')}
+        th.join(2)
+        c = conn['c']
+        id0, caps0, base0 = s.id, sorted(s.server_capabilities), s._base
+        if id0 != case['sid'] or caps0 != sorted(caps1) or (base0 == NetconfBase.BASE_11) != (base == 11):
+            return False, 'after connect(): id %r capabilities %r base %r, the hello said id %r capabilities %r' % (id0, caps0, base0, case['sid'], sorted(caps1)), 'hello_not_taken', {}
+        inbuf = [b'']
+        def drain(n_terms):
+            c.settimeout(0.05)
+            term = F.END11 if base == 11 else F.DELIM10
+            t = time.time() + bound
+            while time.time() < t and inbuf[0].count(term) < n_terms:
+                try:
+                    x = c.recv(65536)
+                except _socket.timeout:
+                    continue
+                except OSError:
+                    break
+                if not x: break
+                inbuf[0] += x
+            c.settimeout(None)
+        nterm = [1 if base == 10 else 0]                      # the client's hello leaves in 1.0 framing
+        recs, registered, expect = {}, [], {}
+        sent, rpcs, sync_res, texts = [], [], {}, {}
+        identity = []                                          # [step index, id, capabilities, base] wherever it differs from the hello's
+        def unread_zero():
+            return s._socket is None or s._socket.fileno() < 0 or F._unread(s._socket) == 0
+        def server_sends(text_bytes, wf_text):
+            c.sendall(F.frame(base, text_bytes))
+            if wf_text is not None:
+                sent.append(wf_text)
+                for k in registered: expect[k].append(wf_text)
+            live = [k for k in registered if wf_text is not None]
+            if live:
+                wait(lambda: all(len(recs[k].got) >= len(expect[k]) for k in live))
+            else:
+                wait(unread_zero); time.sleep(0.03 if case['settle'] else 0.01)
+        def look(i):
+            now = [s.id, sorted(s.server_capabilities), s._base]
+            if now != [id0, caps0, base0]:
+                identity.append([i, now[0], now[1], str(now[2])])
+        for i, st in enumerate(case['steps']):
+            if st[0] == 'add':
+                k = st[1]
+                if k not in recs: recs[k] = Rec(); expect[k] = []
+                s.add_listener(recs[k])
+                if k not in registered: registered.append(k)
+            elif st[0] == 'remove':
+                k = st[1]
+                if k in recs:
+                    s.remove_listener(recs[k])
+                    if k in registered: registered.remove(k)
+            elif st[0] == 'msg':
+                t = '<m xmlns="urn:c14:l" n="%d">é%d</m>' % (st[1], st[1])
+                server_sends(t.encode('utf-8'), t)
+            elif st[0] == 'frame':
+                server_sends(bytes.fromhex(st[1]), None)
+            elif st[0] == 'hello2':
+                t = hello2_text(st[1], base)
+                server_sends(t.encode('utf-8'), t)
+                look(i)
+            elif st[0] == 'req':
+                if not dh.perform_qualify_check():
+                    # such a profile (junos, ...) hands EVERY message to the reply listener, which ends the session on one without a
+                    # message-id ("an error, not a delivery"): with these profiles the history stays one of listeners and hellos
+                    continue
+                j = len(rpcs); sync = st[1]
+                r = Get(s, dh, async_mode=not sync, timeout=4); rpcs.append(r)
+                thr = None
+                if sync:
+                    def call(j=j, r=r):
+                        try:
+                            r.request(); sync_res[j] = ['returned', r.reply._raw if r.reply is not None else None]
+                        except Exception as e:
+                            sync_res[j] = ['raised', type(e).__name__]
+                    thr = threading.Thread(target=call, daemon=True); thr.start()
+                else:
+                    try:
+                        r.request()
+                    except Exception as e:
+                        sync_res[j] = ['raised', type(e).__name__]
+                nterm[0] += 1; drain(nterm[0])
+                ids = F.MSGID.findall(inbuf[0].decode('utf-8', 'replace'))
+                if not wait(lambda: r.id is not None, 1.0) or r.id not in ids:
+                    return False, 'step %d: the peer did not receive the framed request of a connected session (ids seen %r)' % (i, ids), 'requests_not_sent', {'received': inbuf[0][-300:].hex()}
+                texts[j] = F.reply(r.id, '<data>%d é</data>' % j)
+                server_sends(texts[j].encode('utf-8'), texts[j])
+                wait(lambda: r.event.is_set())
+                if thr: thr.join(bound)
+                look(i)
+        # sentinel: whatever was sent before it has been dispatched once it arrives
+        senti = Rec(); s.add_listener(senti)
+        t = '<sentinel xmlns="urn:c14:l"/>'
+        c.sendall(F.frame(base, t.encode('utf-8')))
+        for k in registered: expect[k].append(t)
+        arrived = wait(lambda: senti.got == [t] and all(len(recs[k].got) >= len(expect[k]) for k in registered))
+        look(len(case['steps']))
+        connected_before_end, alive_before_end = s.connected, s.is_alive()
+        if case['end'] == 'eof':
+            try: c.shutdown(_socket.SHUT_RDWR)
+            except OSError: pass
+            c.close()
+            wait(lambda: not s.is_alive() and not s.connected)
+        obs = {'id': s.id, 'server_capabilities': sorted(s.server_capabilities), 'id_of_hello': id0, 'capabilities_of_hello': caps0,
+               'identity_changes': identity, 'listeners': {str(k): {'got': recs[k].got, 'expected': expect[k], 'errbacks': recs[k].errs, 'registered_at_end': k in registered} for k in sorted(recs)},
+               'sentinel_arrived': arrived, 'rpcs': [{'reply': (r.reply._raw if r.reply is not None else None), 'error': (type(r.error).__name__ if r.error is not None else None),
+                                                     'sync': sync_res.get(j)} for j, r in enumerate(rpcs)],
+               'connected_before_end': connected_before_end, 'worker_alive_before_end': alive_before_end, 'connected': s.connected, 'worker_alive': s.is_alive()}
+        if identity:
+            i, nid, ncaps, nb = identity[0]
+            return False, ('a message the server sent AFTER the capability exchange changed the established session: id %r -> %r, capabilities %r -> %r, base %s -> %s '
+                           '(first seen after step %d %r)' % (id0, nid, caps0, ncaps, base0, nb, i, case['steps'][i] if i < len(case['steps']) else 'sentinel')), 'session_identity_changed_after_hello', obs
+        if not connected_before_end or not alive_before_end:
+            return False, 'the session ended (connected=%r, worker alive=%r) on well-formed messages / dropped payloads' % (connected_before_end, alive_before_end), 'session_died_on_hostile_message', obs
+        if not arrived:
+            return False, 'a well-formed message sent to a live session did not reach the listeners registered for it within %g s' % bound, 'listener_missed_message', obs
+        for k in sorted(recs):
+            got, exp = recs[k].got, expect[k]
+            if got != exp:
+                extra = [g for g in got if g not in exp]
+                if extra:
+                    while_out = [g for g in extra if g in sent]
+                    return False, ('listener %d received %r which the server sent while it was NOT registered (before add / after remove_listener)' % (k, while_out[0][:80]) if while_out
+                                   else 'listener %d received %r which is not a message of the stream' % (k, extra[0][:80])), ('removed_listener_received' if while_out else 'delivered_not_framed'), obs
+                return False, 'listener %d received %d messages, %d were sent while it was registered (order / duplicates / loss)' % (k, len(got), len(exp)), 'callbacks_differ', obs
+        for j, r in enumerate(rpcs):
+            o = obs['rpcs'][j]
+            if o['reply'] != texts[j] or (o['sync'] and o['sync'] != ['returned', texts[j]]):
+                return False, 'request %d does not hold the valid reply sent for it (reply %r, error %r, sync %r)' % (j, (o['reply'] or '')[:60], o['error'], o['sync']), 'valid_reply_not_delivered', obs
+        if case['end'] == 'eof':
+            if obs['connected'] or obs['worker_alive']:
+                return False, 'peer closed: connected=%r worker alive=%r after %g s' % (obs['connected'], obs['worker_alive'], bound), 'still_connected_after_error', obs
+            for k in sorted(recs):
+                want = 1 if k in registered else 0
+                if len(recs[k].errs) != want:
+                    return False, 'listener %d (%s at the end) got %d error callbacks %r, expected %d' % (k, 'registered' if want else 'removed', len(recs[k].errs), recs[k].errs, want), \
+                        ('removed_listener_errback' if not want else 'error_not_broadcast'), obs
+        return True, '', None, obs
+    finally:
+        try: s.close()
+        except Exception: pass
+        for x in (conn.get('c'), srv):
+            try:
+                if x is not None: x.close()
+            except Exception: pass
+        try: s.join(3)
+        except Exception: pass
+        _shutil.rmtree(d, ignore_errors=True)
